@@ -93,6 +93,7 @@ def handle (toks : List String) : String :=
   | ["asm", t] => Drive.handleAsm t
   | ["asm", t, _want] => Drive.handleAsm t
   | ["dis", p] => Drive.handleDis p
+  | ["dis", p, t] => if t.startsWith "texts=" then Drive.handleDisT p t else "bad-op"
   | ["rt", p] => Drive.handleRt p
   | "xadd" :: rest => Drive.handleXadd rest
   | "api" :: rest => Drive.handleApi rest
